@@ -49,6 +49,8 @@ def enc_eval(e):
     isa, stmt, kinds = isagen.encode_isa(lay, e.get('variant', 0))
     n = len(exp)
     res = []
+    # negative index codes are written through constants (NEGVn = 0-n), defined at the top of every program
+    defs = ''.join(f'NEGV{x} = 0-{x}\n' for x in sorted(set(re.findall(r'NEGV(\d+)', stmt))))
     if any(k.startswith('relative_address') or k == 'address(slice)' for k in kinds):
         # address-relative operands: the statement names the target the specification computed for each of the two own addresses
         for addr, tg in zip(e['pl'], e['t']):
@@ -56,7 +58,7 @@ def enc_eval(e):
             for k, t in enumerate(tg):
                 text = text.replace('{T%d}' % k, ('lbl%d' % k) if (e.get('variant', 0) + k) % 3 == 0 else str(t))
             labs = ''.join(f'lbl{k} = {t}\n' for k, t in enumerate(tg))
-            src = f'{labs}.org {addr - 3}\n.byte 1, 2, 3\n{text}\npad\n'
+            src = f'{defs}{labs}.org {addr - 3}\n.byte 1, 2, 3\n{text}\npad\n'
             case = {'config': isa, 'files': {'main.asm': src}, 'start': addr, 'end': addr + n - 1}
             obs = runner.run_case(case)
             if obs['status'] != 'ok':
@@ -67,7 +69,7 @@ def enc_eval(e):
             import yaml
             cfgd = yaml.safe_load(isa)
             cfgd['macros'] = {'wrapm': [{'instructions': ['pad', text, 'pad', 'pad']}]}
-            case = {'config': isagen.dump(cfgd), 'files': {'main.asm': f'{labs}.org {addr - 1}\nwrapm\npad\n'}, 'start': addr, 'end': addr + n - 1}
+            case = {'config': isagen.dump(cfgd), 'files': {'main.asm': f'{defs}{labs}.org {addr - 1}\nwrapm\npad\n'}, 'start': addr, 'end': addr + n - 1}
             obs = runner.run_case(case)
             if obs['status'] != 'ok':
                 return {'mismatch': f'"{text}" ({kinds}) at {addr} as a macro step rejected: {(obs.get("msg") or "")[:150]}', 'case': case}
@@ -87,7 +89,7 @@ def enc_eval(e):
     twin = (stmt_uc + '\n') if consts else ''
     pad_n = 0
     src2 = '\n'.join(consts) + ('\n' if consts else '') + ('.org 200\n' + twin if twin else '') + f'.org 37\n.byte 1, 2, 3\nhere:\npad\n'
-    for (src, start) in ((stmt + '\n', 0), (src2 + f'{stmt_lc}\npad\n.byte here\n', 41)):
+    for (src, start) in ((defs + stmt + '\n', 0), (defs + src2 + f'{stmt_lc}\npad\n.byte here\n', 41)):
         case = {'config': isa, 'files': {'main.asm': src}, 'start': start, 'end': start + n - 1}
         obs = runner.run_case(case)
         if obs['status'] != 'ok':
